@@ -18,7 +18,10 @@ Import ListNotations.
 Local Open Scope Z_scope.
 
 (* ------------------------------------------------------------------ types and values *)
-Inductive sk := KBool | KI8 | KI16 | KI32 | KU8 | KU16 | KU32 | KI64 | KU64 | KEnum | KF32 | KF64.
+(* KEnum: enum with underlying int (int32_t); KE8/KEU8/KEU32/KE64/KEU64: enum class : int8_t/uint8_t/uint32_t/int64_t/
+   uint64_t *)
+Inductive sk := KBool | KI8 | KI16 | KI32 | KU8 | KU16 | KU32 | KI64 | KU64 | KEnum | KF32 | KF64
+              | KE8 | KEU8 | KEU32 | KE64 | KEU64.
 
 Inductive ty :=
 | TS (k : sk)
@@ -121,37 +124,50 @@ Definition is_ld (t : ty) : bool := wire t =? 2.
 Definition tag_of (num : Z) (t : ty) : Z := Z.lor (tag_base num) (wire t).
 
 (* ------------------------------------------------------------------ scalars *)
-Definition sk_encode (k : sk) (z : Z) : list Z :=
+(* which trait of scalar.h serves the kind: the 32 bit macro group, the 64 bit macro group, the enum trait *)
+Inductive vclass := C32 | C64 | CEN.
+Definition sk_class (k : sk) : option vclass :=
   match k with
-  | KF32 => le_bytes 4 z
-  | KF64 => le_bytes 8 z
-  | KI64 | KU64 | KEnum => varint (u64 z)
-  | _ => varint (u32 z)
+  | KF32 | KF64 => None
+  | KI64 | KU64 => Some C64
+  | KEnum | KE8 | KEU8 | KEU32 | KE64 | KEU64 => Some CEN
+  | _ => Some C32
+  end.
+(* static_cast<uintN_t>(value) followed by Write/Read/Size VarintN: the widths are regenerated from scalar.h *)
+Definition ucast (bits z : Z) : Z := z mod 2 ^ bits.
+Definition wbits (c : vclass) : Z :=
+  match c with C32 => int32_write_bits | C64 => int64_write_bits | CEN => enum_write_bits end.
+Definition rbits (c : vclass) : Z :=
+  match c with C32 => int32_read_bits | C64 => int64_read_bits | CEN => enum_read_bits end.
+Definition sbits (c : vclass) : Z :=
+  match c with C32 => int32_size_bits | C64 => int64_size_bits | CEN => enum_size_bits end.
+Definition fixed_wbytes (k : sk) : nat :=
+  Z.to_nat ((match k with KF32 => float_write_bits | _ => double_write_bits end) / 8).
+Definition fixed_rbytes (k : sk) : nat :=
+  Z.to_nat ((match k with KF32 => float_read_bits | _ => double_read_bits end) / 8).
+
+Definition sk_encode (k : sk) (z : Z) : list Z :=
+  match sk_class k with
+  | Some c => varint (ucast (wbits c) z)
+  | None => le_bytes (fixed_wbytes k) z
   end.
 Definition sk_size (k : sk) (z : Z) : Z :=
-  match k with
-  | KF32 => float_size
-  | KF64 => double_size
-  | KI64 | KU64 | KEnum => pb_varint_size (u64 z)
-  | _ => pb_varint_size (u32 z)
+  match sk_class k with
+  | Some c => pb_varint_size (ucast (sbits c) z)
+  | None => match k with KF32 => float_size | _ => double_size end
   end.
 (* static_cast<T>(uvalue) *)
 Definition sk_cast (k : sk) (u : Z) : Z :=
   match k with
   | KBool => if u =? 0 then 0 else 1
-  | KI8 => swrap 8 u | KI16 => swrap 16 u | KI32 => swrap 32 u
-  | KU8 => u mod 2 ^ 8 | KU16 => u mod 2 ^ 16 | KU32 => u mod 2 ^ 32
-  | KI64 => swrap 64 u | KU64 => u mod 2 ^ 64
-  | KEnum => swrap 32 u
-  | KF32 => u mod 2 ^ 32 | KF64 => u mod 2 ^ 64
+  | KI8 | KE8 => swrap 8 u | KI16 => swrap 16 u | KI32 | KEnum => swrap 32 u
+  | KU8 | KEU8 => u mod 2 ^ 8 | KU16 => u mod 2 ^ 16 | KU32 | KEU32 | KF32 => u mod 2 ^ 32
+  | KI64 | KE64 => swrap 64 u | KU64 | KEU64 | KF64 => u mod 2 ^ 64
   end.
 Definition dec_scalar (k : sk) : dec := fun s _ =>
-  match k with
-  | KF32 => match read_fixed 4 s with Some (v, s') => Ok (VInt (sk_cast k v)) s' | None => Fail end
-  | KF64 => match read_fixed 8 s with Some (v, s') => Ok (VInt (sk_cast k v)) s' | None => Fail end
-  | KI64 | KU64 | KEnum =>
-      match read_varint s with VOk v s' => Ok (VInt (sk_cast k (u64 v))) s' | _ => Fail end
-  | _ => match read_varint s with VOk v s' => Ok (VInt (sk_cast k (u32 v))) s' | _ => Fail end
+  match sk_class k with
+  | Some c => match read_varint s with VOk v s' => Ok (VInt (sk_cast k (ucast (rbits c) v))) s' | _ => Fail end
+  | None => match read_fixed (fixed_rbytes k) s with Some (v, s') => Ok (VInt (sk_cast k v)) s' | None => Fail end
   end.
 
 (* ------------------------------------------------------------------ sizes and encoding (two passes, as the code) *)
